@@ -380,6 +380,26 @@ def showGraph (g : List Node) : String :=
 def handle (op : String) (args : List String) : Option String :=
   match op, args with
   | "ping", _ => some "pong"
+  | "gthm", [prog, types, eop, x, a, b] => do
+    -- instances of the call-graph theorems on a concrete program: hypothesis, conclusion
+    let p0 ← pProgram (prog.splitOn " ") []
+    let p := decodeProgram p0
+    let ti ← pTypes types
+    match eop with
+    | "renameInput" =>
+      some s!"hyp={RenInOK x a b ti p} same={decide (deepGraph (ti.renameInput x a b) (renameInput x a b p) = (deepGraph ti p).map (renNodeIn x a b))}"
+    | "renameCallable" =>
+      let hyp := WF p && FreshFor x b p && (p.find? x).isSome && RenCallOK x b ti (eraseIds p)
+      some s!"hyp={hyp} same={decide (deepGraph (ti.renameCallable x b) (eraseIds (renameCallable x b p)) = (deepGraph ti (eraseIds p)).map (renNodeCallable x b))}"
+    | _ => none
+  | "gpred", [prog, types, eop, x, a, b] => do
+    -- the graph after the edit as the theorem predicts it from the graph before
+    let p0 ← pProgram (prog.splitOn " ") []
+    let p := decodeProgram p0
+    let ti ← pTypes types
+    match eop with
+    | "renameInput" => some (showGraph ((deepGraph ti p).map (renNodeIn x a b)))
+    | _ => none
   | "graph", [prog, types] => do
     let p ← pProgram (prog.splitOn " ") []
     let ti ← pTypes types
